@@ -434,6 +434,16 @@ def finish(ctx):
     cov["unproved"] = [u["name"] for u in ctx.unproved]
     cov["notes"] = ctx.notes
     cov["repo_source_hash"] = B.source_hash()
+    # keys the evidence schema reserves with a fixed type: a plugin that stored something else there keeps it under <key>_detail
+    for k in ("states", "transitions", "traces_validated_against_impl", "programs", "disagreements_checked"):
+        if k in cov and not (isinstance(cov[k], int) and not isinstance(cov[k], bool)):
+            cov[k + "_detail"] = cov[k]
+            cov[k] = len(cov[k]) if isinstance(cov[k], (list, dict, str)) else 0
+    for k in ("rule", "explanation", "checker_cmd"):
+        if k in cov and not isinstance(cov[k], str):
+            cov[k] = json.dumps(cov[k], default=str)
+    if "exhaustive" in cov and not isinstance(cov["exhaustive"], bool):
+        cov["exhaustive"] = bool(cov["exhaustive"])
     ev = dict(property_id=ctx.pid, tier=ctx.tier, seed=ctx.seed, level="proof", coverage=cov,
               assumptions=ctx.assumptions, wall_s=round(time.time() - ctx.t0, 2),
               violations=len(seen_new) + (1 if (ctx.unproved and not seen_new) else 0))
